@@ -96,8 +96,18 @@ fn fuzz(args: &[String]) {
     pvh::alpha::install_quiet_panic_hook();
     let idx: Vec<usize> = (0..runs).collect();
     let results = par_map(&idx, |_, i| {
-        // sizes 1..=64 KB: small sizes often, every size eventually
-        let kb = if *i < 64 { *i + 1 } else { 1 + (i * 37 + (seed as usize) * 11) % 64 };
+        // sizes 1..=64 KB: every size once, then three quarters of the runs at 1 KB (where the END of the output --
+        // the last token against the requested size -- is the largest part of the text), one eighth at 2..4 KB, one
+        // eighth anywhere
+        let kb = if *i < 64 {
+            *i + 1
+        } else {
+            match i % 8 {
+                0 => 1 + (i * 37 + (seed as usize) * 11) % 64,
+                4 => 2 + (i / 8) % 3,
+                _ => 1,
+            }
+        };
         let run_seed = seed.wrapping_mul(1_000_003).wrapping_add(*i as u64);
         fuzzrun::run_one(run_seed, kb, windows, window_len)
     });
